@@ -5,6 +5,7 @@ CONSTANTS
   Inners = {"chatIn"}
   Gens = {"v1", "v2"}
   JidCfgs = {"plain", "mixed"}
+  Estabs = {"configured"}
   Hows = {"setJid", "setUserDomain", "assign", "copySetJid"}
   MaxHist = 3
 CONSTRAINT Bound
